@@ -79,34 +79,47 @@ where
             self.gglwe_to_ggsw_key_encrypt_sk_tmp_bytes(res)
         );
 
-        let res: &mut GGLWEToGGSWKeyCompressed<&mut [u8]> = &mut res.to_mut();
         let rank: usize = res.rank_out().as_usize();
 
-        let (mut sk_prepared, scratch_1) = scratch.take_glwe_secret_prepared(self, res.rank());
-        let (mut sk_tensor, scratch_2) = scratch_1.take_glwe_secret_tensor(self.n().into(), res.rank());
-        self.glwe_secret_prepare(&mut sk_prepared, sk);
-        self.glwe_secret_tensor_prepare(&mut sk_tensor, sk, scratch_2);
+        // The mutable view owns a copy of the seed tables: collect the seeds written into it and
+        // store them in `res` once the view is gone.
+        let mut seeds: Vec<Vec<[u8; 32]>> = Vec::with_capacity(rank);
 
-        let (mut sk_ij, scratch_3) = scratch_2.take_scalar_znx(self.n(), rank);
+        {
+            let res: &mut GGLWEToGGSWKeyCompressed<&mut [u8]> = &mut res.to_mut();
 
-        let mut source_xa = Source::new(seed_xa);
+            let (mut sk_prepared, scratch_1) = scratch.take_glwe_secret_prepared(self, res.rank());
+            let (mut sk_tensor, scratch_2) = scratch_1.take_glwe_secret_tensor(self.n().into(), res.rank());
+            self.glwe_secret_prepare(&mut sk_prepared, sk);
+            self.glwe_secret_tensor_prepare(&mut sk_tensor, sk, scratch_2);
 
-        for i in 0..rank {
-            for j in 0..rank {
-                self.vec_znx_copy(&mut sk_ij.as_vec_znx_mut(), j, &sk_tensor.at(i, j).as_vec_znx(), 0);
+            let (mut sk_ij, scratch_3) = scratch_2.take_scalar_znx(self.n(), rank);
+
+            let mut source_xa = Source::new(seed_xa);
+
+            for i in 0..rank {
+                for j in 0..rank {
+                    self.vec_znx_copy(&mut sk_ij.as_vec_znx_mut(), j, &sk_tensor.at(i, j).as_vec_znx(), 0);
+                }
+
+                let (seed_xa_tmp, _) = source_xa.branch();
+
+                self.gglwe_compressed_encrypt_sk(
+                    res.at_mut(i),
+                    &sk_ij,
+                    &sk_prepared,
+                    seed_xa_tmp,
+                    enc_infos,
+                    source_xe,
+                    scratch_3,
+                );
+
+                seeds.push(res.at(i).seed.clone());
             }
+        }
 
-            let (seed_xa_tmp, _) = source_xa.branch();
-
-            self.gglwe_compressed_encrypt_sk(
-                res.at_mut(i),
-                &sk_ij,
-                &sk_prepared,
-                seed_xa_tmp,
-                enc_infos,
-                source_xe,
-                scratch_3,
-            );
+        for (i, seeds_i) in seeds.iter().enumerate() {
+            res.seed_mut(i).clone_from(seeds_i);
         }
     }
 }
